@@ -9,99 +9,34 @@ Histories are arbitrary finite lists of operations: parses with any flags, modul
 change (clean or dirty), clock advance, damage to an entry / to a table layout / to the whole file,
 rows written by another pymoca version.
 
-Open finding **C01-F2** (see `known/C01.json`, `proposed_fixes/C01-1.diff`): when the file is deleted,
+Finding **C01-F2** (see `known/C01.json`, `proposed_fixes/C01-1.diff`; fixed in /repo by commit 821b239): when the file is deleted,
 overwritten, or loses its `models` table *after* this process has put it into
 `parse.initialized_dbs`, and the module is not reloaded, the next `parse` raises a `DatabaseError`.
-`damaged_while_initialised_raises` is that counterexample on the model; the theorems that need the
-region excluded carry the hypothesis `Undamaged` / `Synced` and are named `…_partial`.
+`damaged_while_initialised_raises` is that counterexample on the model; the theorems about the code as it is
+carry the hypothesis `Undamaged` / `Synced` and are named `…_partial`.  The model has the flag `Cfg.recover`
+(set by the translator when `parse` has the shape of the proposed fix); with it `parse_transparent` and
+`history_transparent` hold without that hypothesis — the complete statement of the property.
 -/
 namespace PymocaVerif.C01
 open PymocaVerif.ParseCache
 
 variable {pf : Ver → TextId → Option TreeId} {cfg : Cfg}
 
-/-- Operations the statement quantifies over: an entry is damaged into something that does not unpickle,
-    or unpickles to `None` — not into a *different well-formed tree* (outside "entries that no longer
-    unpickle"; nothing could detect that). -/
-def Admissible (pf : Ver → TextId → Option TreeId) : Op → Prop
-  | .corruptEntry x v (.good (some t)) => pf v x = some t
-  | _ => True
-
-instance (pf : Ver → TextId → Option TreeId) (op : Op) : Decidable (Admissible pf op) := by
-  unfold Admissible; split <;> infer_instance
-
-/-- deleting / overwriting the file, dropping the `models` table or replacing it by one with other columns -/
-def damaging : Op → Bool
-  | .corruptFile _ => true
-  | .corruptLayout .models .drop => true
-  | .corruptLayout .models .alien => true
-  | _ => false
-
 /-! ### The invariant holds after every operation, whatever it is -/
 
 /-- **Every operation preserves the row invariant** (each stored row that unpickles to a tree holds the tree
     of the uncached parse of its own text under its own version) — including every corruption, from every
     state, and also when `parse` raises. -/
-theorem inv_step (s : St) (op : Op) (hadm : Admissible pf op) (h : RowInv pf s) : RowInv pf (step cfg pf s op).1 := by
-  cases op with
-  | parse x days upd bypass =>
-    simp only [step]
-    split
-    · exact h
-    · exact parseCached_inv h
-  | reload => exact h
-  | setVersion v d => exact h
-  | tick us => exact h
-  | setInc us => exact h
-  | corruptEntry x v b =>
-    simp only [step, RowInv, damageEntry]
-    cases hq : s.file.queryable with
-    | none => exact h
-    | some m =>
-      intro r hr
-      rw [rowsOf_setRows _ hq] at hr
-      obtain ⟨r0, hr0, rfl⟩ := List.mem_map.mp hr
-      have h0 := h r0 (by rw [queryable_rows hq]; exact hr0)
-      by_cases hm : matches_ x v r0 = true
-      · simp only [hm, if_true]
-        intro t ht
-        simp only at ht
-        subst ht
-        simp [matches_] at hm
-        simpa [Admissible, hm.1, hm.2] using hadm
-      · simpa [hm] using h0
-  | corruptLayout t how =>
-    simp only [step, RowInv]
-    cases hf : s.file with
-    | garbage => simp [damageLayout, FileInv, rowsOf]
-    | db m mt =>
-      have hrows : ∀ r ∈ rowsOf (damageLayout t how (.db m mt)), r ∈ rowsOf (.db m mt) := by
-        cases t <;> cases how <;> cases m <;> simp [damageLayout, rowsOf]
-        all_goals (try (rename_i mm; intro r hr; split at hr <;> simp_all))
-      intro r hr
-      exact h r (by rw [hf]; exact hrows r hr)
-  | corruptFile how => cases how <;> simp [step, RowInv, damageFile, FileInv, rowsOf]
-  | foreignWrite x v d =>
-    simp only [step, RowInv, foreignWrite]
-    cases hpf : pf v x with
-    | none => exact h
-    | some t =>
-      simp only []
-      cases hi : txInsert x v t (s.now - d * day) s.file with
-      | error e => exact h
-      | ok f => exact fileInv_insert h hpf hi
+theorem inv_step (s : St) (op : Op) (hadm : Admissible pf op) (h : RowInv pf s) : RowInv pf (step cfg pf s op).1 :=
+  rowInv_step s op hadm h
 
 example : RowInv (fun _ x => if x = 1 then none else some (x + 10))
-    (finalState ⟨["Exception"]⟩ (fun _ x => if x = 1 then none else some (x + 10)) (St.initial 5)
-      [.parse 0 30 false false, .parse 1 30 false false, .corruptEntry 0 0 (.bad .eof), .parse 0 30 true false]) := by
+      ⟨.db (some ⟨.ok, [⟨0, 0, .good (some 10), 3⟩, ⟨2, 1, .bad .eof, 4⟩, ⟨1, 0, .good none, 4⟩]⟩) none, true, 9, 0, 0, false⟩ ∧
+    Admissible (fun _ x => if x = 1 then none else some (x + 10)) (.corruptEntry 0 0 (.bad .eof)) := by
+  refine ⟨?_, trivial⟩
   intro r hr t ht
-  simp [finalState, step, parseCached, initBlock, txIntegrity, txCheckModels, txCheckMeta, txMetaDefaults, txPrune,
-    txLookup, txTouch, txInsert, finish, St.initial, St.read, DbFile.queryable, DbFile.setRows, rowsOf, damageEntry,
-    matches_, Cfg.isCaught, catches] at hr
-  subst hr
-  simp at ht
-  subst ht
-  rfl
+  simp [rowsOf] at hr
+  rcases hr with rfl | rfl | rfl <;> simp_all
 
 /-! ### One parse -/
 
@@ -130,8 +65,23 @@ theorem none_iff_syntax_error_partial (hc : CaughtAll cfg) (s : St) (h : RowInv 
   · intro he; injection he with he; injection he
   · intro he; rw [he]
 
-example : (step ⟨["Exception"]⟩ (fun _ _ => (none : Option TreeId)) (St.initial 0) (.parse 3 30 false false)).2
+example : (step { caught := ["Exception"] } (fun _ _ => (none : Option TreeId)) (St.initial 0) (.parse 3 30 false false)).2
     = some (.value none) := by decide
+
+/-- **The complete statement for one parse**, for code that re-validates a database it can no longer query
+    (`cfg.recover`, proposed fix C01-1): from *every* state satisfying the row invariant — no hypothesis on
+    what happened to the file or when — the parse returns the uncached result and raises nothing. -/
+theorem parse_transparent (hc : CaughtAll cfg) (hr : cfg.recover = true) (s : St) (h : RowInv pf s)
+    (x : TextId) (days : Int) (upd bypass : Bool) :
+    (step cfg pf s (.parse x days upd bypass)).2 = some (.value (pf s.ver x)) := by
+  simp only [step]
+  split
+  · rfl
+  · simp only [(parseCached_spec_recover (x := x) (days := days) (upd := upd) hc hr h).1]
+
+example : CaughtAll { caught := ["Exception"], recover := true } ∧
+    RowInv (fun _ _ => some 7) ⟨.garbage, true, 10, 1, 0, false⟩ ∧ ¬ Synced ⟨.garbage, true, 10, 1, 0, false⟩ :=
+  ⟨caughtAll_of_all (by decide), by intro r hr; simp [rowsOf] at hr, by intro h; simpa [DbFile.queryable] using h rfl⟩
 
 /-! ### Whole histories -/
 
@@ -153,53 +103,6 @@ def TransparentWhenSynced (cfg : Cfg) (pf : Ver → TextId → Option TreeId) : 
   | s, op :: ops =>
     (∀ x d u b, op = .parse x d u b → Synced s → (step cfg pf s op).2 = some (.value (pf s.ver x))) ∧
     TransparentWhenSynced cfg pf (step cfg pf s op).1 ops
-
-theorem synced_step (hc : CaughtAll cfg) (s : St) (op : Op) (h : RowInv pf s) (hs : Synced s)
-    (hd : damaging op = true → s.init = false) : Synced (step cfg pf s op).1 := by
-  cases op with
-  | parse x days upd bypass =>
-    simp only [step]
-    split
-    · exact hs
-    · intro _; exact (parseCached_spec (x := x) (days := days) (upd := upd) hc h hs).2.2
-  | reload => intro hi; simp [step] at hi
-  | setVersion v d => exact hs
-  | tick us => exact hs
-  | setInc us => exact hs
-  | corruptEntry x v b =>
-    intro hi
-    have hq := hs hi
-    obtain ⟨m, hm⟩ := Option.isSome_iff_exists.mp hq
-    simp [step, damageEntry, hm, queryable_setRows _ hm]
-  | corruptLayout t how =>
-    intro hi
-    have hi' : s.init = true := hi
-    have hq := hs hi'
-    cases t <;> cases how <;>
-      first
-        | (have := hd rfl; rw [this] at hi'; cases hi')
-        | (cases hf : s.file with
-           | garbage => simp [hf, DbFile.queryable] at hq
-           | db m mt =>
-             cases m with
-             | none => simp [hf, DbFile.queryable] at hq
-             | some mm =>
-               simp only [hf, DbFile.queryable] at hq
-               simp [step, hf, damageLayout, DbFile.queryable]
-               try (split at hq <;> simp_all))
-  | corruptFile how =>
-    intro hi
-    have hi' : s.init = true := hi
-    have := hd rfl
-    rw [this] at hi'; cases hi'
-  | foreignWrite x v d =>
-    intro hi
-    have hq := hs hi
-    obtain ⟨m, hm⟩ := Option.isSome_iff_exists.mp hq
-    simp only [step, foreignWrite]
-    cases pf v x with
-    | none => exact hq
-    | some t => simp [txInsert, hm, queryable_setRows _ hm]
 
 /-- **Every parse of every finite history returns the uncached result**, from any state satisfying the invariant
     (in particular from a folder without a database), for every sequence of parses with any flags, reloads,
@@ -232,11 +135,24 @@ theorem history_transparent_when_synced (hc : CaughtAll cfg) (ops : List Op) :
     subst hop
     exact parse_transparent_partial hc s h hs x d u b
 
-theorem initial_inv (t0 : Int) : RowInv pf (St.initial t0) := by
-  intro r hr; simp [St.initial, rowsOf] at hr
+/-- **The complete statement for histories** (`cfg.recover`): every parse of every finite history — any
+    interleaving of parses, reloads, version changes, clock advances and *any* damage to entries, layouts or the
+    whole file at *any* time — returns the uncached result. -/
+theorem history_transparent (hc : CaughtAll cfg) (hr : cfg.recover = true) (ops : List Op) :
+    ∀ (s : St), RowInv pf s → (∀ op ∈ ops, Admissible pf op) → Transparent cfg pf s ops := by
+  induction ops with
+  | nil => intros; trivial
+  | cons op ops ih =>
+    intro s h hadm
+    refine ⟨?_, ih _ (inv_step s op (hadm op (by simp)) h) (fun o ho => hadm o (by simp [ho]))⟩
+    intro x d u b hop
+    subst hop
+    exact parse_transparent hc hr s h x d u b
 
-theorem initial_synced (t0 : Int) : Synced (St.initial t0) := by
-  intro h; simp [St.initial] at h
+example : (run { caught := ["Exception"], recover := true } (fun _ _ => some 5) (St.initial 0)
+      [.parse 0 30 false false, .corruptFile .delete, .parse 0 30 false false, .corruptLayout .models .alien,
+       .parse 0 30 true false, .corruptFile .text, .parse 0 30 false false]).filterMap (·.2) =
+      [.value (some 5), .value (some 5), .value (some 5), .value (some 5)] := by decide +kernel
 
 /-- a 12-operation history with a hit, a prune, an entry that does not unpickle, an entry that unpickles to
     `None`, a wrong layout, a corrupt file (before a reload), a foreign row and a version change -/
@@ -248,157 +164,15 @@ def demoOps : List Op :=
 
 def demoPf : Ver → TextId → Option TreeId := fun v x => if x = 1 then none else some (100 * v + x)
 
-example : (∀ op ∈ demoOps, Admissible demoPf op) ∧ Undamaged ⟨["Exception"]⟩ demoPf (St.initial 1000) demoOps := by
+example : (∀ op ∈ demoOps, Admissible demoPf op) ∧ Undamaged { caught := ["Exception"] } demoPf (St.initial 1000) demoOps := by
   refine ⟨by decide, ?_⟩
   simp [demoOps, Undamaged, damaging, step]
 
-example : (run ⟨["Exception"]⟩ demoPf (St.initial 1000) demoOps).filterMap (·.2) =
+example : (run { caught := ["Exception"] } demoPf (St.initial 1000) demoOps).filterMap (·.2) =
     [.value (some 0), .value (some 0), .value (some 0), .value none, .value (some 0), .value (some 100), .value (some 100)] := by
   decide +kernel
 
 /-! ### A failed parse is never stored -/
-
-/-- planting a blob that unpickles to `None` is the only way such a row comes into existence -/
-def plantsNone : Op → Bool
-  | .corruptEntry _ _ (.good none) => true
-  | _ => false
-
-theorem noNone_setRows {f : DbFile} {m : Models} {rows : List Row} (hq : f.queryable = some m)
-    (h : ∀ r ∈ rows, r.blob ≠ .good none) : NoNone (f.setRows rows) := by
-  intro r hr
-  rw [rowsOf_setRows _ hq] at hr
-  exact h r hr
-
-theorem noNone_insert {f f' : DbFile} {x : TextId} {v : Ver} {tree : TreeId} {t : Int} (h : NoNone f)
-    (he : txInsert x v tree t f = .ok f') : NoNone f' := by
-  unfold txInsert at he
-  split at he
-  · cases he
-  · rename_i m hq
-    cases he
-    apply noNone_setRows hq
-    intro r hr
-    rcases List.mem_append.mp hr with hr | hr
-    · have : r ∈ m.rows := by
-        split at hr
-        · exact (List.mem_filter.mp hr).1
-        · exact hr
-      exact h r (by rw [queryable_rows hq]; exact this)
-    · simp at hr; subst hr; simp
-
-theorem noNone_finish {s : St} {x : TextId} {tree : Option TreeId} (h : NoNone s.file) :
-    NoNone (finish pf s x tree).1.file := by
-  unfold finish
-  split
-  · exact h
-  · split
-    · exact h
-    · simp only []
-      split
-      · exact h
-      · rename_i f he
-        exact noNone_insert (f := s.file) h (by simpa [St.read] using he)
-
-theorem noNone_touch {f f' : DbFile} {x : TextId} {v : Ver} {t : Int} (h : NoNone f)
-    (he : txTouch x v t f = .ok f') : NoNone f' := by
-  unfold txTouch at he
-  split at he
-  · cases he
-  · rename_i m hq
-    cases he
-    apply noNone_setRows hq
-    intro r hr
-    obtain ⟨r0, hr0, rfl⟩ := List.mem_map.mp hr
-    have h0 := h r0 (by rw [queryable_rows hq]; exact hr0)
-    split <;> simpa using h0
-
-theorem noNone_afterInit {s : St} {x : TextId} {upd : Bool} (h : NoNone s.file) :
-    NoNone (afterInit cfg pf s x upd).1.file := by
-  unfold afterInit
-  cases hl : txLookup x s.ver s.file with
-  | error e => exact h
-  | ok o =>
-    cases o with
-    | none => exact noNone_finish h
-    | some lb =>
-      obtain ⟨lh, blob⟩ := lb
-      simp only []
-      by_cases hcnd : (upd || decide (lh < s.read.1 - day)) = true
-      · simp only [hcnd, if_true]
-        cases ht : txTouch x s.read.2.read.2.ver s.read.2.read.1 s.read.2.read.2.file with
-        | error e => exact h
-        | ok f =>
-          have hf : NoNone f := noNone_touch (f := s.file) h ht
-          simp only []
-          cases blob with
-          | good t => exact noNone_finish (s := { s.read.2.read.2 with file := f }) hf
-          | bad e =>
-            by_cases hcg : cfg.isCaught e = true
-            · simp only [hcg, if_true]; exact noNone_finish (s := { s.read.2.read.2 with file := f }) hf
-            · simp only [hcg]; exact hf
-      · simp only [hcnd]
-        cases blob with
-        | good t => exact noNone_finish (s := s.read.2) h
-        | bad e =>
-          by_cases hcg : cfg.isCaught e = true
-          · simp only [hcg, if_true]; exact noNone_finish (s := s.read.2) h
-          · simp only [hcg]; exact h
-
-theorem noNone_step (s : St) (op : Op) (hp : plantsNone op = false) (h : NoNone s.file) :
-    NoNone (step cfg pf s op).1.file := by
-  cases op with
-  | parse x days upd bypass =>
-    simp only [step]
-    split
-    · exact h
-    · rw [parseCached_eq]
-      by_cases hi : s.init = true
-      · simp only [hi, if_true]; exact noNone_afterInit h
-      · have hif : s.init = false := by simpa using hi
-        obtain ⟨s', he, _, _, _, rows, c, p, hfile, hsub⟩ := initBlock_spec s days
-        simp only [hif, he, Bool.false_eq_true, if_false]
-        apply noNone_afterInit
-        intro r hr
-        rw [hfile] at hr
-        exact h r (hsub r (by simpa [rowsOf] using hr))
-  | reload => exact h
-  | setVersion v d => exact h
-  | tick us => exact h
-  | setInc us => exact h
-  | corruptEntry x v b =>
-    simp only [step, damageEntry]
-    cases hq : s.file.queryable with
-    | none => exact h
-    | some m =>
-      apply noNone_setRows hq
-      intro r hr
-      obtain ⟨r0, hr0, rfl⟩ := List.mem_map.mp hr
-      have h0 := h r0 (by rw [queryable_rows hq]; exact hr0)
-      split
-      · cases b with
-        | good t => cases t <;> simp_all [plantsNone]
-        | bad e => simp
-      · exact h0
-  | corruptLayout t how =>
-    simp only [step]
-    cases hf : s.file with
-    | garbage => simp [damageLayout, NoNone, rowsOf]
-    | db m mt =>
-      have hrows : ∀ r ∈ rowsOf (damageLayout t how (.db m mt)), r ∈ rowsOf (.db m mt) := by
-        cases t <;> cases how <;> cases m <;> simp [damageLayout, rowsOf]
-        all_goals (try (rename_i mm; intro r hr; split at hr <;> simp_all))
-      intro r hr
-      exact h r (by rw [hf]; exact hrows r hr)
-  | corruptFile how => cases how <;> simp [step, damageFile, NoNone, rowsOf]
-  | foreignWrite x v d =>
-    simp only [step, foreignWrite]
-    cases pf v x with
-    | none => exact h
-    | some t =>
-      simp only []
-      cases hi : txInsert x v t (s.now - d * day) s.file with
-      | error e => exact h
-      | ok f => exact noNone_insert h hi
 
 /-- **A failed parse is never stored**: in every history in which the harness does not itself plant a blob that
     unpickles to `None`, no row of the database ever unpickles to `None` — whatever else happens (syntax
@@ -417,10 +191,10 @@ example : NoNone (St.initial 0).file ∧ ∀ op ∈ [Op.parse 1 30 false false, 
 /-- … and a planted one is never served: with a row that unpickles to `None` the parse still returns the
     fresh tree and replaces the row. -/
 theorem planted_none_not_served :
-    (run ⟨["Exception"]⟩ (fun _ _ => some 5) (St.initial 0)
+    (run { caught := ["Exception"] } (fun _ _ => some 5) (St.initial 0)
       [.parse 0 30 false false, .corruptEntry 0 0 (.good none), .parse 0 30 false false]).map (·.2) =
       [some (.value (some 5)), none, some (.value (some 5))] ∧
-    NoNone (finalState ⟨["Exception"]⟩ (fun _ _ => some 5) (St.initial 0)
+    NoNone (finalState { caught := ["Exception"] } (fun _ _ => some 5) (St.initial 0)
       [.parse 0 30 false false, .corruptEntry 0 0 (.good none), .parse 0 30 false false]).file := by
   refine ⟨by decide +kernel, ?_⟩
   unfold NoNone
@@ -428,14 +202,30 @@ theorem planted_none_not_served :
 
 /-! ### Obligation over the current sources; the open finding -/
 
+/-- what the translator read off the current `parse` -/
+def currentCfg : Cfg :=
+  { caught := Generated.SqlProgram.caughtUnpickle, recover := Generated.SqlProgram.recoversAfterDamage }
+
 /-- The `except` clause around `pickle.loads` in the current `parse` (extracted by the translator) catches
     every exception class a damaged blob was seen to raise. -/
-theorem caught_classes_cover : CaughtAll ⟨Generated.SqlProgram.caughtUnpickle⟩ :=
+theorem caught_classes_cover : CaughtAll currentCfg :=
   caughtAll_of_all (by decide)
+
+/-- The current `parse` has the handler that re-validates a database it can no longer query (fix 821b239). -/
+theorem current_parse_recovers : currentCfg.recover = true := by decide
+
+/-- **C01 for the code as it is now**: with the facts extracted from the current sources, every parse of every
+    finite history (any damage at any time) returns the uncached result — `none` iff syntax error, no exception. -/
+theorem current_code_transparent (ops : List Op) (s : St) (h : RowInv pf s) (hadm : ∀ op ∈ ops, Admissible pf op) :
+    Transparent currentCfg pf s ops :=
+  history_transparent caught_classes_cover current_parse_recovers ops s h hadm
+
+example : RowInv demoPf (St.initial 1000) ∧ ∀ op ∈ demoOps, Admissible demoPf op :=
+  ⟨by intro r hr; simp [St.initial, rowsOf] at hr, by decide⟩
 
 /-- With only `pickle.UnpicklingError` caught (the code before the fix) an empty blob escapes as `EOFError`. -/
 theorem narrow_except_raises :
-    (run ⟨["pickle.UnpicklingError"]⟩ (fun _ _ => some 5) (St.initial 0)
+    (run { caught := ["pickle.UnpicklingError"] } (fun _ _ => some 5) (St.initial 0)
       [.parse 0 30 false false, .corruptEntry 0 0 (.bad .eof), .parse 0 30 false false]).map (·.2) =
       [some (.value (some 5)), none, some (.raised (.unpickle .eof))] := by decide +kernel
 
@@ -443,7 +233,7 @@ theorem narrow_except_raises :
     while the process keeps it in `initialized_dbs`, then parse again: `DatabaseError`.  After a reload the
     same parse succeeds. -/
 theorem damaged_while_initialised_raises :
-    (run ⟨["Exception"]⟩ (fun _ _ => some 5) (St.initial 0)
+    (run { caught := ["Exception"] } (fun _ _ => some 5) (St.initial 0)
       [.parse 0 30 false false, .corruptFile .delete, .parse 0 30 false false, .reload, .parse 0 30 false false]).map (·.2) =
       [some (.value (some 5)), none, some (.raised .db), none, some (.value (some 5))] := by decide +kernel
 
